@@ -106,6 +106,18 @@ func unitShortName(key string) string {
 }
 
 func (w *World) ResolveSpecFunc(sp *FuncSpec) *ssa.Function {
+	if sp.Extern {
+		// a library function given by its full name "import/path.Func": it can be verified against its assumed
+		// contract when its package is loaded with bodies (container/heap)
+		if i := strings.LastIndex(sp.Name, "."); i > 0 && !strings.HasPrefix(sp.Name, "(") {
+			if p := w.SSAPkgs[sp.Name[:i]]; p != nil {
+				if fn := p.Func(sp.Name[i+1:]); fn != nil && len(fn.Blocks) > 0 {
+					return fn
+				}
+			}
+		}
+		return nil
+	}
 	return w.FindFunc(sp.Pkg, sp.Recv, sp.Name)
 }
 
@@ -259,7 +271,30 @@ func (x *Exec) runUnit() {
 	st := &State{PC: c.True(), Heap: map[string]*Term{}, Cells: map[string]Val{}, Alloc: c.Const("alloc0", SInt)}
 	x.assumeGlobal(c.Le(c.Int(64), st.Alloc)) // room for package-level objects
 	var args []Val
-	for _, p := range fn.Params {
+	for i, p := range fn.Params {
+		pname := p.Name()
+		if sp != nil {
+			if n := specParamName(sp, fn, i); n != "" {
+				pname = n
+			}
+		}
+		if dt, ok := sp.DynTypes[pname]; ok && types.IsInterface(p.Type()) {
+			// an interface parameter with a fixed dynamic type for this unit
+			denv := &SpecEnv{X: x, Vars: map[string]SV{}, Cur: st, Old: st, Pkg: fn.Pkg}
+			T := denv.resolveType(dt)
+			inner := x.symbolicParam(st, p.Name()+"!dyn", T)
+			var payload *Term
+			switch iv := inner.(type) {
+			case VPtr:
+				payload = x.boxPtr(iv)
+			case VInt:
+				payload = iv.T
+			default:
+				panic(unsupported("dyntype of " + dt))
+			}
+			args = append(args, VIface{c.Int(int64(x.W.TypeTag(T))), payload})
+			continue
+		}
 		v := x.symbolicParam(st, p.Name(), p.Type())
 		args = append(args, v)
 	}
@@ -306,6 +341,12 @@ func (x *Exec) runUnit() {
 	// ensures, checked return path by return path (parts of one obligation per clause)
 	_ = vals
 	for _, e := range sp.Ensures {
+		if strings.HasPrefix(e.Label, "assumed_") {
+			// a postcondition that is stated but NOT proved in this unit (a mathematical consequence of the proved ones that the
+			// solvers cannot derive, e.g. by induction); it is listed as an assumption in the evidence
+			x.note("postcondition " + e.Label + " is assumed, not proved: " + e.Src)
+			continue
+		}
 		x.curSite = ""
 		var parts []*Term
 		var later []*Term
